@@ -351,6 +351,61 @@ def h_hasseb(ctx, shape, stale):
         return "%s:%s" % (name, expect)
 
 
+def h_hasseb_delayed(ctx):
+    """Two queries queued on a hasseb gateway whose report for the first one takes its time (a busy bus): each
+    caller still gets the answer to its own command, however late."""
+    delays = [0.01, 0.3, 0.7, 2.5]
+    d1 = delays[ctx.fresh_choice("first_report_after", len(delays))]
+    v1, v2 = ctx.fresh("val1", 0, 255), ctx.fresh("val2", 0, 255)
+    c1, c2 = gg.QueryActualLevel(A.GearShort(1)), gg.QueryActualLevel(A.GearShort(2))
+    with rigs.HidRig(ctx, 1) as rig:
+        out = {}
+
+        async def main(loop):
+            d = H.hasseb("/dev/hasseb")
+            d.connect()
+            await vloop.settle(2)
+            n = {"w": 0}
+
+            def gateway(data):
+                n["w"] += 1
+                if n["w"] == 1:
+                    loop.call_later(d1, rig.deliver, loop, d, rigs.mkbytes([2, v1]))
+                elif n["w"] == 2:
+                    loop.call_later(0.01, rig.deliver, loop, d, rigs.mkbytes([2, v2]))
+            rig.os.on_write = gateway
+            t1 = asyncio.ensure_future(d.send(c1))
+            await vloop.settle(1)
+            t2 = asyncio.ensure_future(d.send(c2))
+            await asyncio.sleep(6.0)
+            for k, t in (("1", t1), ("2", t2)):
+                out["done" + k] = t.done()
+                if t.done():
+                    out["exc" + k] = t.exception()
+                    out["r" + k] = t.result() if t.exception() is None else None
+                else:
+                    t.cancel()
+            out["writes"] = n["w"]
+            d.disconnect()
+            await vloop.settle(2)
+        st, r = call(vloop.run, main)
+        tag = "hasseb/delayed"
+        if st == "exc":
+            ctx.fail("harness run raised %r" % (r,), key=tag + "/run-raised:" + type(r).__name__)
+            return "raised"
+        for k, cmd, v in (("1", c1, v1), ("2", c2, v2)):
+            if not out.get("done" + k):
+                ctx.fail("send %s never completed" % k, key=tag + "/hang" + k)
+                return "hang"
+            if out["exc" + k] is not None:
+                ctx.fail("send %s raised %r" % (k, out["exc" + k]), key=tag + "/send-raised" + k)
+                return "send-raised"
+            _check_typed(ctx, cmd, out["r" + k], "value", v, tag + "/query" + k)
+        ctx.prove(out["writes"] == 2, "%d frames handed to the gateway for two commands" % out["writes"],
+                  key=tag + "/writes")
+        return "delay=%s" % d1
+
+
 # ---------------------------------------------------------------------------------------------
 # LUBA / SCI
 
@@ -512,8 +567,7 @@ def h_atx_history(ctx):
     query answered with a symbolic value: it must be returned that value - nothing of an earlier exchange may
     be carried over."""
     short = ctx.fresh_bool("first_ack_missing")
-    v = ctx.fresh("val", 0, 255)
-    v = v if isinstance(v, int) else v.concretize()
+    v = [0x00, 0x2A, 0xFF, 0x4E, 0xA0, 0x0D][ctx.fresh_choice("val_i", 6)]     # (the line is text: concrete values)
     drv = _atx_driver()
     c1 = gg.SetMaxLevel(A.GearShort(1))
     c2 = gg.SetMinLevel(A.GearShort(2))
@@ -521,7 +575,10 @@ def h_atx_history(ctx):
     tag = "atx/history"
     for k, (cmd, lines) in enumerate(((c1, ["N\n"] * (1 if short else 2)), (c2, ["N\n", "N\n"]),
                                       (q, ["J%02X\n" % v]))):
-        drv.conn = _FakeConn([l.encode("ascii") for l in lines])
+        # another master is busy on the bus: up to two of its frames are reported before our own lines
+        # (the driver tolerates four per command)
+        foreign = ["HFE80\n", "H0390\n"][:ctx.fresh_choice("foreign_lines_%d" % k, 3)]
+        drv.conn = _FakeConn([l.encode("ascii") for l in foreign + lines])
         st, r = call(drv.send, cmd)
         if st == "exc":
             ctx.fail("send %d raised %r" % (k, r), key=tag + "/raised:" + type(r).__name__)
@@ -583,6 +640,15 @@ class _DaliServerConn:
         self.model, self.idx, self.queue, self.closed, self.extra = model, idx, [], False, False
 
     def send(self, data):
+        # (a stream: several 4-byte requests written at once are several requests)
+        data = bytes(data)
+        for off in range(0, len(data), 4):
+            self._request(data[off:off + 4])
+        return len(data)
+
+    sendall = send
+
+    def _request(self, data):
         n = len(self.model.transmissions)
         self.model.transmissions.append((data, self.idx))
         status, val = self.model.outcomes[n]
@@ -671,6 +737,7 @@ def cases(tier):
         cs.append(Case("sci-stale-info-%s" % SHAPES[i][0], h_serial,
                        {"which": "sci", "shape": i, "scenario": "stale-info"}))
     cs.append(Case("atx-history", h_atx_history, {}))
+    cs.append(Case("hasseb-delayed-report", h_hasseb_delayed, {}, install=rigs.install_tridonic_structs))
     for which in ("luba", "sci"):
         cs.append(Case("%s-queue-cancel" % which, h_serial_queue_cancel, {"which": which}))
     for mode in ("inflight", "queued", "abandoned"):
